@@ -21,7 +21,7 @@ def point_set(rng, n, family):
     if family == 'line':
         # fully collinear set: horizontal, vertical, diagonal or sloped; distinct parameters
         dx, dy = rng.choice([(1, 0), (0, 1), (1, 1), (1, -1), (2, 1), (1, 3), (-1, 2), (3, -2)])
-        ts = rng.sample(range(-6, 12), n)
+        ts = rng.sample(range(-10, 30), min(n, 40))
         x0, y0 = rng.randint(-3, 3), rng.randint(-3, 3)
         return [[float(x0 + t * dx), float(y0 + t * dy)] for t in ts]
     if family == 'line+1':
@@ -40,6 +40,7 @@ def point_set(rng, n, family):
         # several points on each of a few rays through the lowest-leftmost point
         pts = [[0.0, 0.0]]
         rays = rng.sample([(0, 1), (1, 3), (1, 2), (1, 1), (2, 1), (3, 1), (1, 0), (3, -1), (2, -1), (1, -1), (1, -2), (1, -3)], rng.randint(2, 4))
+        n = min(n, 1 + 4 * len(rays))
         while len(pts) < n:
             dx, dy = rng.choice(rays)
             t = rng.randint(1, 5)
@@ -51,9 +52,10 @@ def point_set(rng, n, family):
     if family == 'circle':
         # integer points on / near a circle: general position is common, large hulls
         out = []
+        n = min(n, 16)
         while len(out) < n:
             a = rng.uniform(0, 2 * math.pi)
-            r = rng.choice([5, 9, 9, 13])
+            r = rng.choice([9, 9, 13, 25])
             q = [float(round(r * math.cos(a))), float(round(r * math.sin(a)))]
             if q not in out:
                 out.append(q)
